@@ -967,3 +967,35 @@ def g_parse_str(rng, level=0, n_random=300):
                 yield {'obj': pre + ''.join(body), 'N': None}
     for seq in _descriptions(rng, n_random):
         yield {'obj': ''.join(_LETTER[c] for c in seq), 'N': None}
+
+
+def _plist(rng):
+    pa, _ = _pc()
+    N = int(rng.integers(1, 4))
+    L = int(rng.integers(0, 6))
+    return pa.PauliList(bits(rng, L, 2 * N), rng.integers(0, 4, L).astype(np.int64)), L
+
+
+@gen(PA + 'PauliList.__getitem__#mask')
+def g_getitem_mask(rng, level=0, n_random=150):
+    for _ in range(n_random):
+        pl, L = _plist(rng)
+        yield {'self': pl, 'item': rng.integers(0, 2, L).astype(bool)}
+
+
+@gen(PA + 'PauliList.__getitem__#slice')
+def g_getitem_slice(rng, level=0, n_random=150):
+    for _ in range(n_random):
+        pl, L = _plist(rng)
+        a, b = sorted(int(x) for x in rng.integers(0, L + 1, 2))
+        yield {'self': pl, 'item': slice(a, b)}
+
+
+@gen(PA + 'PauliList.__getitem__#index')
+def g_getitem_index(rng, level=0, n_random=150):
+    for _ in range(n_random):
+        pl, L = _plist(rng)
+        if L == 0:
+            yield {'self': pl, 'item': np.zeros(0, dtype=np.int64)}
+            continue
+        yield {'self': pl, 'item': rng.integers(0, L, int(rng.integers(0, 7))).astype(np.int64)}
